@@ -98,6 +98,40 @@ fn main() {
         }
     }
 
+    // committed regression cases (minimal reproductions of repaired or previously reported failures) are replayed first
+    if let Ok(rd) = std::fs::read_dir(std::path::Path::new(vlib::run::VERIF_DIR).join("regress")) {
+        let mut files: Vec<_> = rd.filter_map(|e| e.ok()).map(|e| e.path()).filter(|p| p.extension().map(|x| x == "json").unwrap_or(false)).collect();
+        files.sort();
+        for path in files {
+            let Ok(text) = std::fs::read_to_string(&path) else { continue };
+            let Ok(v) = serde_json::from_str::<serde_json::Value>(&text) else { continue };
+            let applies = v["property"].as_str() == Some(id.as_str()) || v["properties"].as_array().map(|a| a.iter().any(|x| x.as_str() == Some(id.as_str()))).unwrap_or(false);
+            if !applies {
+                continue;
+            }
+            let kind = v["kind"].as_str().unwrap_or("").to_string();
+            match std::panic::catch_unwind(|| vlib::props::replay(&id, &kind, &v["case"])) {
+                Ok(Some(Ok(()))) => {}
+                Ok(Some(Err(msg))) => {
+                    println!("FAILURE property={id} kind=regress : {msg}");
+                    println!("VIOLATION property={id} replay={}", path.display());
+                    std::process::exit(1);
+                }
+                Ok(None) => {}
+                Err(p) => {
+                    let m = vlib::run::panic_msg(&p);
+                    if m.starts_with(vlib::run::HARNESS_PANIC) {
+                        eprintln!("INCONCLUSIVE property={id}: {m}");
+                        std::process::exit(2);
+                    }
+                    println!("FAILURE property={id} kind=regress : PANIC {m}");
+                    println!("VIOLATION property={id} replay={}", path.display());
+                    std::process::exit(1);
+                }
+            }
+        }
+    }
+
     let ctx = Ctx { id: id.clone(), tier, seed, start: Instant::now() };
     let out = match vlib::props::run(&ctx) {
         Some(o) => o,
